@@ -13,7 +13,7 @@ CODES = {1: "the destinations of the transmitted messages differ from the non-em
 def send_scenario(r, total, wrap_dest=None):
     cfg = (0, 0, 0, 0, 0, 0, 0, 3, 3, 5, None, 0)
     e = conv.s_entry(scen.SERVICES[0].create_find_entry(3))
-    dests = [None, [1], [2], [3], [4]]
+    dests = [None, [1], [2], [3], [4], [101], [102]]      # 101/102: another port on the host of 1/2
     events = []
     t = 0
     for k in range(total):
@@ -104,7 +104,7 @@ def notify_ids(n_per_dest, dests=2):
             eg.log.disabled = True
             eg.values[1] = b"x"
             eg.values[2] = b"yz"
-            eps = [H.IPv4EndpointOption(address=ipaddress.IPv4Address("10.0.0.%d" % (k + 1)), l4proto=H.L4Protocols.UDP, port=4000) for k in range(dests)]
+            eps = [H.IPv4EndpointOption(address=ipaddress.IPv4Address("10.0.0.1"), l4proto=H.L4Protocols.UDP, port=4000 + k) for k in range(dests)]   # one host, two ports
             for k in range(n_per_dest):
                 for ep in eps[: 1 if k % 3 else dests]:
                     # one, two or three notifications packed into one datagram
@@ -141,7 +141,7 @@ def run(ctx):
     for k in range(20 if quick else 300):
         st = S._SessionStorage()
         n = r.choice([10, 1000, 70000]) if k < 3 else r.randint(1, 3000)
-        ds = [r.choice([None, 1, 2, 3]) if r.random() < 0.2 else 1 for _ in range(n)]
+        ds = [r.choice([None, 1, 2, 3, 101]) if r.random() < 0.25 else 1 for _ in range(n)]
         ds = [7 if (i > 66000 and i % 50 == 0) else d for i, d in enumerate(ds)]  # first contact after another destination's wrap
         out = [st.assign_outgoing(None if d is None else sim.addr_of(d)) for d in ds]
         cases.append((801, [None if d is None else [d] for d in ds]))
